@@ -63,14 +63,21 @@ PROPS = {
     "C01": {
         "module": "MantraDex.Properties.C01", "ns": "MantraDex.C01",
         "theorems": ["swap_conserves", "route_conserves", "withdraw_conserves", "provide_multi_conserves", "single_first_leg_conserves",
-                     "create_pool_conserves_partial", "config_conserves_partial", "bank_send_effect"],
+                     "create_pool_conserves_partial", "config_conserves_partial", "bank_send_effect",
+                     "MantraDex.C01Sys.pm_inv_step_partial", "MantraDex.C01Sys.pm_custody_reachable_partial", "MantraDex.C01Sys.pm_inv_init"],
+        "extra_modules": ["MantraDex.Properties.C01Sys"],
         "streams": {"pm_hist": (80, 4000), "faults": (30, 1500)},
         "what": "handler-level conservation law of the pool manager for every non-LP token: reserves' + outflow(messages) = reserves + inflow(funds) "
                 "for swap, routed swap (any length), withdraw, multi-asset deposit, pool creation (keeps nothing), config/ownership; the single-asset "
                 "first leg leaves reserves untouched and forwards exactly floor(a/2) to a self-call; a bank send moves exactly the listed coins. "
-                "Together with the bank semantics this makes balance - reserves invariant under every pool operation",
-        "assumptions": ["the lift through the runtime to whole transactions (incl. the cross-contract locked / single-asset paths) is validated by the "
-                        "custody + excess monitors on every step of the history and fault streams, not proved",
+                "Together with the bank semantics this makes balance - reserves invariant under every pool operation. LIFTED THROUGH THE RUNTIME "
+                "(C01Sys): 'PM bank balance >= sum of reserves for every non-factory denom' + well-formedness + empty single-side buffer is preserved by "
+                "every whole transaction (nested farm-manager calls, reply modes, rollback, injected faults) other than a single-asset deposit, and "
+                "holds in every state reachable by such histories (pm_inv_step_partial, pm_custody_reachable_partial, pm_inv_init)",
+        "assumptions": ["the lift through the runtime to whole transactions is proved (C01Sys) for every transaction except single-asset deposits, for "
+                        "non-factory denoms, for the runtime/bank MODEL (trusted, exercised by the streams) and account-signed transactions; the "
+                        "single-asset path (first leg, self-swap, reply, second leg) is validated by the custody + excess monitors and the C14 twin on every "
+                        "step of the history and fault streams, not proved",
                         "create_pool law needs creation fee + token-factory fee not to overflow u128 (proved counterexample otherwise); config law needs unique pool ids"],
     },
     "C14": {
@@ -186,25 +193,32 @@ PROPS = {
     "C06": {
         "module": "MantraDex.Properties.C06", "ns": "MantraDex.C06",
         "theorems": ["farm_terms_shape", "farm_terms_epochs_nodup", "term_le_emission", "rewards_after_cursor", "reclaim_pays_nothing",
-                     "claim_sets_cursor", "claim_farms_bounded", "update_weights_effect_next_epoch"],
+                     "claim_sets_cursor", "claim_farms_bounded", "update_weights_effect_next_epoch",
+                     "MantraDex.C07Split.epoch_shares_sum_le_rate", "MantraDex.C07Split.span_rewards_sum_le"],
+        "extra_modules": ["MantraDex.Properties.C07Split"],
         "streams": {"fm_hist": (80, 4000)},
         "what": "every reward term is floor(rate*user_weight/total_weight) for an epoch inside the farm's life and strictly after the claim cursor, "
                 "at most one term per epoch; <= the epoch's emission when user weight <= total; the cursor moves to until (<= current epoch), "
                 "re-claiming pays nothing and earlier untils are refused (no epoch paid twice); claimed_amount never exceeds the funded amount; "
-                "weight changes are recorded for epoch+1 only. End-to-end bound over whole histories: ledger monitor monClaim on every claim",
+                "weight changes are recorded for epoch+1 only. End-to-end bound over whole histories: ledger monitor monClaim on every claim"
+                "; all users together: the shares of any user set whose weights are covered by the total add up to <= the epoch's emission, and over a span to <= rate x epochs (C07Split.epoch_shares_sum_le_rate, span_rewards_sum_le)",
         "assumptions": ["that the weights used are the true per-epoch weights is C07's refinement lemmas + the ledger monitor (per generated claim)"],
     },
     "C07": {
         "module": "MantraDex.Properties.C07", "ns": "MantraDex.C07",
         "theorems": ["histSet_sorted", "histGet_histSet", "weightAt_histSet_before", "address_scan_eq_weightAt", "contract_scan_eq_weightAt",
-                     "sync_preserves_weightAt", "farm_terms_sum_eq_ledger", "epoch_share_floor", "query_eq_claim_single_lp"],
+                     "sync_preserves_weightAt", "farm_terms_sum_eq_ledger", "epoch_share_floor", "query_eq_claim_single_lp",
+                     "MantraDex.C07Split.spanReward_split", "MantraDex.C07Split.claim_split_total", "MantraDex.C07Split.claim_split_state"],
+        "extra_modules": ["MantraDex.Properties.C07Split"],
         "streams": {"fm_hist": (80, 4000)},
         "also_tags": ["C06-overpaid"],   # C07 says "never more": the ledger monitor's over-payment tag decides C07 as well
         "what": "refinement core: the user scan and the total-weight scan of the compacted history compute the ledger's weight in effect (Spec.weightAt); "
                 "claim-time compaction preserves the weight in effect from the claimed epoch on (schedule independence); a farm's terms add up to "
-                "the ledger entitlement Spec.spanReward; each payment is the floor of the exact share; Rewards query = Claim payout (single LP token)",
-        "assumptions": ["the end-to-end statement over whole histories (any claim schedule pays the same) is validated per generated claim by the "
-                        "independent ledger monitor, not proved; query=claim proved for users with one LP token"],
+                "the ledger entitlement Spec.spanReward; each payment is the floor of the exact share; Rewards query = Claim payout (single LP token)"
+                "; end-to-end schedule independence of Claim (one LP token): claim up to a then up to b pays per denom exactly what a single claim up to b pays, and leaves the same cursor, the same claimed amounts and the same weights in effect (C07Split.claim_split_total, claim_split_state, spanReward_split)",
+        "assumptions": ["schedule independence is proved for splitting one claim into two (hence, by iteration, into any number) for users with one LP token and "
+                        "no other operation in between; across interleaved operations of other users it is validated per generated claim by the independent "
+                        "ledger monitor; query=claim proved for users with one LP token"],
     },
 
     "C08": {
@@ -223,14 +237,20 @@ PROPS = {
     "C05": {
         "module": "MantraDex.Properties.C05", "ns": "MantraDex.C05",
         "theorems": ["create_position_conserves", "expand_position_conserves", "close_position_conserves", "withdraw_position_conserves",
-                     "claim_conserves", "create_farm_conserves", "expand_farm_conserves", "close_farm_conserves", "config_conserves"],
+                     "claim_conserves", "create_farm_conserves", "expand_farm_conserves", "close_farm_conserves", "config_conserves",
+                     "MantraDex.C05Sys.fm_inv_step", "MantraDex.C05Sys.fm_inv_reachable", "MantraDex.C05Sys.fm_custody_reachable",
+                     "MantraDex.C05Sys.fm_inv_init"],
+        "extra_modules": ["MantraDex.Properties.C05Sys"],
         "streams": {"fm_hist": (80, 4000), "faults": (30, 1500)},
         "what": "handler-level conservation law of the farm manager for every token: liability' + outflow(messages) <= liability + inflow(funds), "
                 "where liability = sum of recorded position amounts + sum over farms of (funded - claimed); proved for every message kind "
                 "(positions create/expand/close/withdraw incl. emergency split, claim, farm create/expand/close, config). With the bank semantics "
-                "this is 'balance - liability never decreases', i.e. the farm manager always holds every locked LP and every unclaimed reward",
-        "assumptions": ["the lift through the runtime/bank to whole transactions is validated by the custody monitor on every step of the history and fault streams",
-                        "position/farm identifiers unique and the next generated position id unused (invariants of reachable states, validated by the streams)"],
+                "this is 'balance - liability never decreases', i.e. the farm manager always holds every locked LP and every unclaimed reward"
+                " LIFTED THROUGH THE RUNTIME (C05Sys): the invariant 'FM bank balance >= liability for every denom' + its well-formedness is preserved by every whole transaction of an external sender executed by the CosmWasm runtime model (nested calls, reply modes, rollback, any injected fault) and hence holds in every reachable state (fm_inv_step, fm_inv_reachable, fm_custody_reachable, fm_inv_init)",
+        "assumptions": ["the lift through the runtime to whole transactions is proved for the runtime/bank MODEL (Model/System.lean, Model/World.lean: cw-multi-test "
+                        "semantics, trusted, exercised by the history and fault streams) and for transactions signed by accounts (never by a contract address); "
+                        "on the implementation it is validated by the custody monitor on every step",
+                        "position/farm identifiers unique and generated position ids beyond the counter unused: part of the proved invariant FmInv (C05Sys)"],
     },
     "C11": {
         "module": "MantraDex.Properties.C11", "ns": "MantraDex.C11",
